@@ -166,7 +166,7 @@ def _worker(x):
                         M2 = np.asarray(mod.euler_to_u(a[0] + s1, a[1] + s2, a[2] - abs(s3)), dtype=float)
                     finally:
                         xfab.CHECKS.activated = was
-                    if np.abs(M2 - ex).max() > 2e-11:
+                    if not (np.abs(M2 - ex).max() <= 2e-11):
                         out.append("euler_to_u with angles shifted by multiples of 2 pi (checks off) differs from Rz.Rx.Rz by %.3g (%s)" %
                                    (float(np.abs(M2 - ex).max()), tag))
             elif k == "omega":
@@ -192,15 +192,15 @@ def _worker(x):
                       "tilt": lambda: mod.detect_tilt(a0[0], a0[1], a0[2])}[k]()
                 M0 = np.asarray(M0, dtype=float)
                 n += 1
-                if M0.shape != (3, 3) or not np.all(np.isfinite(M0)) or np.abs(M0 - ex).max() > 2e-11:
+                if M0.shape != (3, 3) or not np.all(np.isfinite(M0)) or not (np.abs(M0 - ex).max() <= 2e-11):
                     out.append("%s with the unshifted angles %s differs from the documented composition by %.3g (%s)" %
                                (k, a0, float(np.abs(M0 - ex).max()) if M0.shape == (3, 3) else -1, tag))
-            if M.shape != (3, 3) or not np.all(np.isfinite(M)) or np.abs(M - ex).max() > 1e-12 * (1 if k != "rod" else 10) * (20 if k in ("omega", "general", "quart", "tilt") else 1):
+            if M.shape != (3, 3) or not np.all(np.isfinite(M)) or not (np.abs(M - ex).max() <= 1e-12 * (1 if k != "rod" else 10) * (20 if k in ("omega", "general", "quart", "tilt") else 1)):
                 out.append("%s differs from the documented composition of elementary rotations by %.3g (%s)" %
                            ({"euler": "euler_to_u", "omega": "form_omega_mat", "general": "form_omega_mat_general",
                              "quart": "quart_to_omega", "tilt": "detect_tilt", "rod": "rod_to_u"}[k],
                             float(np.abs(M - ex).max()) if M.shape == (3, 3) else -1, tag))
-            if np.abs(M.T.dot(M) - np.eye(3)).max() > 1e-9 or abs(np.linalg.det(M) - 1) > 1e-9:
+            if not (np.abs(M.T.dot(M) - np.eye(3)).max() <= 1e-9) or not (abs(np.linalg.det(M) - 1) <= 1e-9):
                 out.append("builder result is not a proper rotation (%s)" % tag)
             # inverses on the exact lattice matrix
             if k in ("euler", "tilt", "general", "rod"):
@@ -211,19 +211,19 @@ def _worker(x):
                 else:
                     Rb = Rz(e[0]).dot(Rx(e[1])).dot(Rz(e[2]))
                     Rc = np.asarray(G(mod.euler_to_u, *e), dtype=float)
-                    if np.abs(Rb - ex).max() > 1e-6 or np.abs(Rc - ex).max() > 1e-6:
+                    if not (np.abs(Rb - ex).max() <= 1e-6) or not (np.abs(Rc - ex).max() <= 1e-6):
                         out.append("u_to_euler angles %s rebuild the matrix with error %.3g > 1e-6 (%s)" %
                                    (e.tolist(), float(np.abs(Rb - ex).max()), tag))
             if k == "rod":
                 n += 1
                 r = np.asarray(G(mod.u_to_rod, ex), dtype=float)
                 want = np.array(cs["p"], dtype=float) / cs["q"]
-                if not np.all(np.isfinite(r)) or (np.abs(want).max() <= 1000 and np.abs(r - want).max() > 1e-9 * max(1.0, np.abs(want).max() ** 3)) \
-                        or (np.abs(want).max() > 1000 and (np.sign(r) != np.sign(want)).any() and np.abs(r - want).max() > 1e-3 * np.abs(want).max()):
+                if not np.all(np.isfinite(r)) or (np.abs(want).max() <= 1000 and not (np.abs(r - want).max() <= 1e-9 * max(1.0, np.abs(want).max() ** 3))) \
+                        or (not (np.abs(want).max() <= 1000) and (np.sign(r) != np.sign(want)).any() and not (np.abs(r - want).max() <= 1e-3 * np.abs(want).max())):
                     out.append("u_to_rod gives %s, the Rodrigues vector is %s (%s)" % (r.tolist(), want.tolist(), tag))
                 else:
                     Rb = np.asarray(G(mod.rod_to_u, r), dtype=float)
-                    if np.abs(Rb - ex).max() > 1e-6:
+                    if not (np.abs(Rb - ex).max() <= 1e-6):
                         out.append("rod_to_u(u_to_rod(U)) differs from U by %.3g (%s)" % (float(np.abs(Rb - ex).max()), tag))
         except Exception as e_:
             out.append("exception %r (%s)" % (e_, tag))
@@ -264,7 +264,7 @@ def halfturn_worker(a):
                 out.append("u_to_rod returned %s for a rotation outside the excluded 1e-6 degree window (%s)" % (r.tolist(), tag))
                 continue
             Rb = np.asarray(mod.rod_to_u(r), dtype=float)
-            if np.abs(Rb - U).max() > 1e-6:
+            if not (np.abs(Rb - U).max() <= 1e-6):
                 out.append("rod_to_u(u_to_rod(U)) differs from U by %.3g > 1e-6; u_to_rod gave |r| = %.6g, the rotation has |r| = %.6g (%s)" %
                            (float(np.abs(Rb - U).max()), float(np.sqrt(r.dot(r))), math.sqrt(pp), tag))
         except Exception as e_:
@@ -340,7 +340,7 @@ def run(tier, seed):
                     if want_ is None:
                         want_ = np.asarray(mod.rod_to_u([float(k_), 0.0, 1.0]), dtype=float)
                     v.case(("int", modname, nm_))
-                    if got_.shape != (3, 3) or np.abs(got_ - want_).max() > 1e-12:
+                    if got_.shape != (3, 3) or not (np.abs(got_ - want_).max() <= 1e-12):
                         v.violation("xfab.%s.%s with integer-typed arguments differs from the same call with floats by %.3g" %
                                     (modname, nm_, float(np.abs(got_ - want_).max()) if got_.shape == (3, 3) else -1), {"call": nm_, "module": modname})
                 except Exception as ex_:
